@@ -207,7 +207,7 @@ def dot_history(rng, hid, length):
     return {"id": "dot%d" % hid, "setup": setup, "calls": calls}
 
 
-def readdir_scenarios(rng, tier, exe, wd):
+def readdir_scenarios(rng, tier, exe, wd, exe_be=None):
     """Listings of directories with 0..12 entries under varying buffer sizes and cookies; returns the trace for Readdir.tla."""
     traces, meta = [], []
 
@@ -235,14 +235,20 @@ def readdir_scenarios(rng, tier, exe, wd):
         names, setup = scenario(j)
         plans.append((j, names, setup, rng.random()))
 
-    def run_plan(pl):
+    def run_plan(pl, exe=exe):
         j, names, setup, r0 = pl
         lrng = random.Random(SEED * 100000 + j)
+        # every third directory is listed by the host built for a big-endian machine (the entry heads then hold their numbers most
+        # significant byte first)
+        order = "big" if exe_be and j % 3 == 2 else "little"
+        ORDER[j] = order
+        if order == "big":
+            exe = exe_be
         opend = {"call": "open", "abi": "p", "dirfd": 3, "path": "dd", "abs": False, "oflags": 2, "rd": True, "wr": False, "app": False}
         # first pass: learn the stream with one big call (its cookies are needed to plan the other calls)
         recs, index, err, rc, sb = wasi.run_history(exe, [opend, {"call": "readdir", "abi": "p", "fd": 4, "buflen": 16384, "cookie": 0}], wd, "rd%d" % j,
                                                     setup=setup, ls_after=())
-        first = parse_dirents(recs[-1]) if recs and recs[-1].get("call") == "readdir" else None
+        first = parse_dirents(recs[-1], order) if recs and recs[-1].get("call") == "readdir" else None
         if first is None or rc != 0:
             return j, None, None, err
         cookies = [e["next_full"] for e in first["recs"]]
@@ -256,17 +262,20 @@ def readdir_scenarios(rng, tier, exe, wd):
     return plans, out
 
 
-def parse_dirents(rec):
+ORDER = {}
+
+
+def parse_dirents(rec, order="little"):
     if rec is None or rec.get("errno") != 0:
         return None
     ch = wasi.changed(rec)
-    used = int.from_bytes(bytes(ch.get(wasi.R1 + i, 0xEE) for i in range(4)), "little")
+    used = int.from_bytes(bytes(ch.get(wasi.R1 + i, 0xEE) for i in range(4)), order)
     buf = [ch.get(wasi.DIRBUF + i, 0xEE) for i in range(used)]
     recs, p = [], 0
     while p + 24 <= used:
-        nxt = int.from_bytes(bytes(buf[p:p + 8]), "little")
-        ino = int.from_bytes(bytes(buf[p + 8:p + 16]), "little")
-        namlen = int.from_bytes(bytes(buf[p + 16:p + 20]), "little")
+        nxt = int.from_bytes(bytes(buf[p:p + 8]), order)
+        ino = int.from_bytes(bytes(buf[p + 8:p + 16]), order)
+        namlen = int.from_bytes(bytes(buf[p + 16:p + 20]), order)
         typ = buf[p + 20]
         name = buf[p + 24:min(used, p + 24 + namlen)]
         recs.append({"next": nxt % (2 ** 31), "ino": ino % (2 ** 31), "type": typ, "namlen": namlen, "name": name, "pad": buf[p + 21:p + 24],
@@ -350,7 +359,7 @@ def main():
         thread_calls = tres["calls"] if tres else 0
         # (c) directory listings: code -> spec
         exe = wasi.build_driver(wd, name="wasidrv2")
-        plans, outs = readdir_scenarios(rng, tier, exe, wd)
+        plans, outs = readdir_scenarios(rng, tier, exe, wd, wasi.build_driver(wd, name="wasidrv2-be", extra=("-DWASM_ENDIAN=1",)))
         trace, owner = [], []
         for (j, names, setup, _), (j2, calls, recs, err) in zip(plans, outs):
             if calls is None:
@@ -363,7 +372,7 @@ def main():
             line = 3
             stream = None
             for c in calls[1:]:
-                d = parse_dirents(by_i.get(line))
+                d = parse_dirents(by_i.get(line), ORDER.get(j, "little"))
                 line += 1
                 if d is None:
                     a = by_i.get(line - 1)
